@@ -638,8 +638,23 @@ class _SchemaP:
     def names(self):
         return list(self.f.cols)
 
+    def _dtype(self, c):
+        memo = cur().ghost.setdefault("polars_column_dtypes", {})
+        key = (id(self.f.cols[c]), c)
+        if key not in memo:
+            memo[key] = (SAny(name=f"dtype[{c}]"), self.f.cols[c])  # one dtype object per column (projection keeps the column: same dtype)
+        return memo[key][0]
+
     def dtypes(self):
-        return [SAny(name=f"dtype[{c}]") for c in self.f.cols]
+        return [self._dtype(c) for c in self.f.cols]
+
+    def items(self):
+        return [(c, self._dtype(c)) for c in self.f.cols]
+
+    def pyvc_getitem(self, I, c):
+        if c not in self.f.cols:
+            I.raise_py(KeyError, c)
+        return self._dtype(c)
 
     def pyvc_len(self):
         return len(self.f.cols)
